@@ -10,6 +10,8 @@ Tie: correspondence harness harness/cmd/c08 (real providers, public constructors
 -/
 import Pandora.Proofs.C08Run
 import Pandora.Proofs.C08Conc
+import Pandora.Proofs.C08Agree
+import Pandora.Proofs.C08Bound
 import Pandora.Bridge.ProvLoops
 import Pandora.Drv.C08
 
@@ -18,29 +20,6 @@ open Pandora.Model.C08 Pandora.Proofs.C08
 
 /-- the first `m` entries of the file 0,1,…,n-1 read over and over -/
 def cyc (n m : Nat) : List Nat := (List.range m).map (· % n)
-
-theorem cycTake_range (n m : Nat) (hn : 0 < n) : cycTake (List.range n) m = cyc n m := by
-  induction m with
-  | zero => simp [cyc, cycTake_zero]
-  | succ m ih =>
-    have h : (List.range n)[m % (List.range n).length]? = some (m % n) := by
-      simp [Nat.mod_lt _ hn]
-    rw [cycTake_succ _ m _ h, ih]
-    simp [cyc, List.range_succ]
-
-theorem expected_eq_target (l p n : Nat) (hn : 0 < n) : Spec.C08.expected l p n = target l p n none := by
-  unfold Spec.C08.expected target
-  cases l with
-  | zero =>
-    cases p with
-    | zero => simp
-    | succ p => simp [minPlus]
-  | succ l =>
-    cases p with
-    | zero => simp [minPlus]
-    | succ p =>
-      have : (p + 1) * n ≠ 0 := Nat.ne_of_gt (Nat.mul_pos (by omega) hn)
-      simp [minPlus, this]
 
 /-- **General form.**  Whatever stops the run first — limit, passes·n or the cancellation after `c` acquisitions —
 at count `T`: the provider of every kind ends within the model's fuel, consumers have acquired exactly the first
@@ -176,36 +155,6 @@ outcomes of its send `select`, receives and end-of-ammo observations of each of 
 any position; labels that are not enabled are skipped).  The channel has the capacity the constructor of the kind
 gives it.  No fairness is assumed: consumers may stop acquiring at any time (instances whose schedule is over). -/
 
-theorem cycl_eq_cyc (n m : Nat) : cycl n m = cyc n m := rfl
-
-theorem expected_of_atBound (b : Bounds) (n k : Nat) (hn : 0 < n) (h : AtBound b n k) :
-    Spec.C08.expected b.limit b.passes n = some k := by
-  obtain ⟨⟨h1, h2⟩, h3⟩ := h
-  unfold Spec.C08.expected
-  cases hl : b.limit with
-  | zero =>
-    cases hp : b.passes with
-    | zero => rcases h3 with ⟨h0, _⟩ | ⟨h0, _⟩ <;> omega
-    | succ p =>
-      rcases h3 with ⟨h0, _⟩ | ⟨_, h0⟩
-      · omega
-      · simp [h0, hp]
-  | succ l =>
-    cases hp : b.passes with
-    | zero =>
-      rcases h3 with ⟨_, h0⟩ | ⟨h0, _⟩
-      · simp [h0, hl]
-      · omega
-    | succ p =>
-      simp only [Option.some.injEq]
-      rw [hl] at h1 h3; rw [hp] at h2 h3
-      rcases h3 with ⟨_, h0⟩ | ⟨_, h0⟩ <;> rcases h1 with h1 | h1 <;> rcases h2 with h2 | h2 <;> omega
-
-theorem atBound_of_expected (b : Bounds) (n m : Nat) (hn : 0 < n) (h : Spec.C08.expected b.limit b.passes n = some m) :
-    AtBound b n m := by
-  rw [expected_eq_target _ _ _ hn] at h
-  exact atBound_of_target b n m hn h
-
 /-- **never too many, always in file order** — in every interleaving the ammo acquired so far followed by those in
 the channel are the first `sent` entries of the cyclic file, `sent` never exceeds `min⁺(limit, passes·n)`, and the
 channel never holds more than its capacity. -/
@@ -279,10 +228,6 @@ theorem C08_conc_returns (inp : Input) (n cons : Nat) (hn : 0 < n) (ls : List La
   have hi := sysInv_reach inp n cons hn ls
   exact returns_alone inp n _ cons hn 1 _ hi hres (hstop.imp id (atBound_of_expected _ _ _ hn)) (tauBudget_le_one n _)
 
-theorem run_append (inp : Input) (n cap cons : Nat) (s : Sys) (l1 l2 : List Label) :
-    s.run inp n cap cons (l1 ++ l2) = (s.run inp n cap cons l1).run inp n cap cons l2 := by
-  simp [Sys.run, List.foldl_append]
-
 /-- **a cancel stops the providers that read ctx.Err() in their loop** (http with and without preload, scenario):
 whatever happens after the cancel, at most the one ammo that was already in the send `select` is still sent. -/
 theorem C08_conc_cancel_stops (inp : Input) (n cons : Nat) (hn : 0 < n) (ht : inp.kind.ctxTop = true)
@@ -328,6 +273,25 @@ theorem C08_conc_complete (inp : Input) (n cons : Nat) (hn : 0 < n) (hc : 0 < co
     rw [hsent] at h5
     exact ⟨by rw [hr', h4], h5⟩
 
+/-- **one model** — the small-step machine of every provider kind (the one the interleaving theorems are about, whose
+step functions are bridged to the regenerated loop bodies), driven by the schedule of the harness' drain mode (one
+consumer that is always ready, the context cancelled after `cancelAt` acquisitions, the select taking Done once it is
+cancelled), ends exactly like `Model.C08.run` (the fuel-function model the Lean driver predicts the real providers'
+observations with): same acquired ammo, same result of `Run`, sink closed. -/
+theorem C08_machine_agrees (inp : Input) (n T : Nat) (hn : 0 < n)
+    (hT : target inp.b.limit inp.b.passes n inp.cancelAt = some T) :
+    runMach inp n = run inp n := by
+  have hlen : (List.range n).length = n := List.length_range
+  have tg : Tgt inp.b.limit inp.b.passes ((List.range n).filter (fun _ => true)).length inp.cancelAt T := by
+    rw [filter_const_true, hlen]; exact tgt_of_target _ _ _ _ _ hn hT
+  have h := runFuel_spec inp (List.range n) (fun _ => true) T (by rw [hlen]; exact hn)
+    (by rw [filter_const_true, hlen]; exact hn) (fun _ => rfl) tg
+  rw [filter_const_true, hlen] at h
+  rw [runMach_eq inp n T hn hT]
+  unfold run; rw [hT]
+  simp only
+  rw [h, cycTake_range n T hn]
+
 /-! non-vacuity: concrete cells, evaluated by the kernel -/
 example : (run ⟨.jsonArray, false, ⟨0, 1⟩, none⟩ 1).map (·.delivered) = some [0] := by decide
 example : (run ⟨.uri, true, ⟨2, 0⟩, none⟩ 3).map (fun o => (o.delivered, o.run, o.sinkClosed)) = some ([0, 1], .nil, true) := by decide
@@ -336,6 +300,7 @@ example : (run ⟨.httpScenario, false, ⟨2, 0⟩, none⟩ 3).map (fun o => (o.
 example : (run ⟨.genericJson, false, ⟨5, 2⟩, none⟩ 2).map (·.delivered) = some [0, 1, 0, 1] := by decide
 example : (run ⟨.raw, false, ⟨0, 0⟩, some 7⟩ 3).map (fun o => (o.delivered, o.run)) = some ([0, 1, 2, 0, 1, 2, 0], .canceled) := by decide
 example : Spec.C08.expected 2 1 3 = some 2 ∧ target 2 1 3 none = some 2 := by decide
+example : (runMach ⟨.jsonLines, true, ⟨0, 2⟩, some 3⟩ 2).map (fun o => (o.delivered, o.run, o.sinkClosed)) = some ([0, 1, 0], .canceled, true) := by decide
 -- interleavings: two consumers of a preloaded uri provider with limit 3 (unbuffered channel) …
 example : let s := reach ⟨.uri, true, ⟨3, 0⟩, none⟩ 2 2 [.prod, .prod, .hand 1, .prod, .hand 0, .prod, .hand 1, .prod, .eoa 0, .eoa 1]
     (s.acquired, s.log.map (·.1), s.result, s.closed, s.ended) = ([0, 1, 0], [1, 0, 1], some .nil, true, [1, 0]) := by decide
